@@ -9,7 +9,7 @@ import (
 	"deps.dev/util/resolve/version"
 )
 
-var c12VerTemplates = []string{"d.d.d", "d.d.d-l", "d.d", "zzz", "d.d.d-d"}
+var c12VerTemplates = []string{"d.d.d", "d.d.d-l", "d.d", "zzz", "d.d.d-d", "d.d.d.d", "vd.d.d"}
 var c12ReqTemplates = map[System][]string{
 	NPM:   {"^d.d.d", ">=d.d.d", "d.d.d", "latest", "*", "<d.d.d", "~d.d", "zzz", "d.x"},
 	Maven: {"[d.d,d.d]", "d.d.d", "[d.d.d,)", "(,d.d.d)", "[d.d.d]"},
